@@ -728,6 +728,45 @@ def part_alias_edits(ctx, shard):
                         ctx.violation(base + f"|mode={got[0]}-but-defined", case, want_scale, got)
                     elif abs(got[1] - want_scale) > 1e-12 * abs(want_scale) or got[3] != (dim0**k if form == "power" else (dim0 / rd.time if form == "compound" else dim0)):
                         ctx.violation(base + "|mode=stale-value", case, want_scale, got)
+        # define_unit / membership of names the registry can ALREADY resolve (prefixed and aliased spellings of a built-in):
+        # the answer is the same whether or not the spelling was ever looked up before
+        outcomes = {}
+        for warm in (False, True):
+            for cls, name, _fac in sp:
+                if cls == "symbol":
+                    continue
+                world.reset_world()
+                r = UnitRegistry()
+                if warm:
+                    resolve_real(r, name)
+                ctx.count("evaluations")
+                try:
+                    define_unit(name, (1.0, "m"), registry=r)
+                    st = "defined"
+                except RuntimeError:
+                    st = "refused"
+                except Exception as e:  # noqa: BLE001
+                    st = "raise:" + type(e).__name__
+                inreg = None
+                world.reset_world()
+                r2 = UnitRegistry()
+                if warm:
+                    resolve_real(r2, name)
+                try:
+                    inreg = name in r2
+                except Exception as e:  # noqa: BLE001
+                    inreg = "raise:" + type(e).__name__
+                outcomes[(cls, name, warm)] = (st, inreg)
+        for (cls, name, warm), (st, inreg) in outcomes.items():
+            if warm:
+                continue
+            st_w, in_w = outcomes[(cls, name, True)]
+            ctx.decided(("define-existing", sym, name))
+            case = {"part": "alias-edit", "sym": sym, "spelling": name}
+            if st != st_w:
+                ctx.violation(f"C12|define-existing|spelling={cls}|mode=outcome-depends-on-an-earlier-lookup", case, {"cold": st}, {"warm": st_w})
+            if inreg != in_w:
+                ctx.violation(f"C12|define-existing|spelling={cls}|mode=membership-depends-on-an-earlier-lookup", case, {"cold": inreg}, {"warm": in_w})
     world.reset_world()
 
 
